@@ -168,3 +168,21 @@ Qed.
     buffer before it is decoded, so [decoder.bytes] allocates per call. *)
 Lemma gen_write_buf_fresh : gen_write_buf = BufFresh /\ gen_request_buffer_presets = [].
 Proof. vm_compute. split; reflexivity. Qed.
+
+(** ** Round 3 (seeded change C13-i): how the package configures its websockets.
+    The known settings are the 64 KiB read and write buffers of the server's
+    upgrader and the endpoint's dialer - and NO read limit, compression
+    setting or anything else: a frame is handed to the decoder whatever its
+    size ("no field of a frame, however large, ..."). *)
+Definition deployed_ws_config : list (string * string) :=
+  [ ("ReadBufferSize", "65536"); ("ReadBufferSize", "65536");
+    ("WriteBufferSize", "65536"); ("WriteBufferSize", "65536") ]%string.
+
+Definition ws_no_read_limit (l : list (string * string)) : bool :=
+  forallb (fun kv => negb (String.eqb (fst kv) "SetReadLimit"%string)) l.
+
+Lemma gen_ws_no_read_limit : ws_no_read_limit gen_ws_config = true.
+Proof. vm_compute. reflexivity. Qed.
+
+Lemma gen_ws_config_frozen : src_eqb gen_ws_config deployed_ws_config = true.
+Proof. vm_compute. reflexivity. Qed.
